@@ -121,6 +121,44 @@ def _n1_constructor(run: Run, modname: str, path: str, pat: str, idx: int) -> li
     return sorted(set(found))
 
 
+def _fresh_through_helper(tree: ast.Module, fn: ast.AST, arg: ast.AST):
+    """the literal prefix when `arg` is a name bound, by (tuple) assignment, from a call of a module-level helper that returns next_name(<literal>) at that position on
+    every path - nothing else about the helper matters for the name"""
+    if not isinstance(arg, ast.Name):
+        return None
+    for a in [x for x in ast.walk(fn) if isinstance(x, ast.Assign) and len(x.targets) == 1 and isinstance(x.value, ast.Call) and isinstance(x.value.func, ast.Name)]:
+        tgt = a.targets[0]
+        if isinstance(tgt, ast.Name) and tgt.id == arg.id:
+            pos = None
+        elif isinstance(tgt, ast.Tuple) and any(isinstance(e, ast.Name) and e.id == arg.id for e in tgt.elts):
+            pos = next(i for i, e in enumerate(tgt.elts) if isinstance(e, ast.Name) and e.id == arg.id)
+        else:
+            continue
+        if sum(1 for x in ast.walk(fn) if isinstance(x, ast.Name) and isinstance(x.ctx, ast.Store) and x.id == arg.id) != 1:
+            return None
+        h = next((x for x in tree.body if isinstance(x, ast.FunctionDef) and x.name == a.value.func.id), None)
+        if h is None:
+            return None
+        lits = set()
+        rets = [r for r in ast.walk(h) if isinstance(r, ast.Return)]
+        for r in rets:
+            v = r.value
+            if pos is not None:
+                if not (isinstance(v, ast.Tuple) and len(v.elts) > pos):
+                    return None
+                v = v.elts[pos]
+            if isinstance(v, ast.Name):
+                defs = [d for d in ast.walk(h) if isinstance(d, ast.Assign) and any(isinstance(t_, ast.Name) and t_.id == v.id for t_ in d.targets)]
+                if len(defs) != 1 or v.id in [p_.arg for p_ in h.args.args + h.args.kwonlyargs]:
+                    return None
+                v = defs[0].value
+            if not (isinstance(v, ast.Call) and dotted(v.func) == "next_name" and len(v.args) == 1 and isinstance(v.args[0], ast.Constant) and isinstance(v.args[0].value, str)):
+                return None
+            lits.add(v.args[0].value)
+        return lits.pop() if rets and len(lits) == 1 else None
+    return None
+
+
 def _n1(run: Run, w: World) -> None:
     run.rule("N1", "the internal name handed to the SymPy base constructor is next_name(<literal>) on every path, independent of display names")
     prefixes = []
@@ -129,7 +167,14 @@ def _n1(run: Run, w: World) -> None:
             prefixes += _n1_constructor(run, modname, path, pat, idx)
             continue
         f = Fn(w, modname, path)
-        calls = [(n, c) for n in f.cfg.stmt_nodes() for c in node_calls(n) if _match(c, pat)]
+        # `make = obj.create_new; make(name, ...)`: a call through a local name bound once to the method is the method call
+        aliases = set()
+        if pat.startswith("."):
+            for a_ in [x for x in ast.walk(f.fn) if isinstance(x, ast.Assign) and len(x.targets) == 1 and isinstance(x.targets[0], ast.Name)
+                       and isinstance(x.value, ast.Attribute) and x.value.attr == pat[1:]]:
+                if sum(1 for x in ast.walk(f.fn) if isinstance(x, ast.Name) and isinstance(x.ctx, ast.Store) and x.id == a_.targets[0].id) == 1:
+                    aliases.add(a_.targets[0].id)
+        calls = [(n, c) for n in f.cfg.stmt_nodes() for c in node_calls(n) if _match(c, pat) or (isinstance(c.func, ast.Name) and c.func.id in aliases)]
         run.require(bool(calls), f"{modname}:{path} no longer calls {pat}")
         for n, c in calls:
             run.ob("N1", f"{f.qual}:{pat}@{norm(c, 40)}")
@@ -143,6 +188,10 @@ def _n1(run: Run, w: World) -> None:
                 and not (sl.calls - {"next_name"}) and all(isinstance(e, (ast.Name, ast.Call, ast.Constant)) for e in sl.exprs)
             if fresh:
                 prefixes += [cc.args[0].value for cc in nn]
+                continue
+            lit = _fresh_through_helper(f.mod.tree, f.fn, arg)
+            if lit is not None:
+                prefixes.append(lit)  # `name, ... = helper(...)` where the helper returns next_name(<literal>) at that position on every path
                 continue
             # frozen exception: IndexedSymbol re-created by SymPy's subs/solve from an existing SymPy symbol
             if path == "IndexedSymbol.__new__" and sl.params == {"name_or_symbol"} and not sl.calls:
@@ -189,6 +238,23 @@ def _n1(run: Run, w: World) -> None:
             run.ob("N1", f"{f.qual}:return-fresh")
             sl = f.slice(r, r.ast.value) if r.ast.value is not None else None
             fresh = sl is not None and any(f.callee(node_of(f.cfg, cc) or r, cc) == NEXT_NAME for cc in sl.call_nodes)
+            if not fresh and sl is not None:
+                # ... or from a module-level helper every return of which carries a fresh next_name(<literal>) (name, scalars = _name_and_scalars(...))
+                for cc in sl.call_nodes:
+                    h = next((x for x in f.mod.tree.body if isinstance(x, ast.FunctionDef) and isinstance(cc.func, ast.Name) and x.name == cc.func.id), None)
+                    if h is None:
+                        continue
+                    rets = [x for x in ast.walk(h) if isinstance(x, ast.Return) and x.value is not None]
+
+                    def carries(v) -> bool:
+                        if isinstance(v, ast.Tuple):
+                            return any(carries(e) for e in v.elts)
+                        if isinstance(v, ast.Name):
+                            defs = [d for d in ast.walk(h) if isinstance(d, ast.Assign) and any(isinstance(t_, ast.Name) and t_.id == v.id for t_ in d.targets)]
+                            return len(defs) == 1 and carries(defs[0].value)
+                        return isinstance(v, ast.Call) and dotted(v.func) == "next_name" and len(v.args) == 1 and isinstance(v.args[0], ast.Constant)
+                    if rets and all(carries(x.value) for x in rets):
+                        fresh = True
             if not fresh:
                 run.violate("N1", f"{f.qual}:return:{norm(r.ast, 50)}", f.mod, r.ast,
                             f"{path} can return `{norm(r.ast.value, 40) if r.ast.value is not None else None}`, which is not a newly created coordinate system: the result "
